@@ -212,9 +212,9 @@ def reclaim (s : St) (i : Id) : Except Err St :=
 
 /-- First unreferenced live address (objects first); cyclic garbage only when `cycToo`. -/
 def findUnref (s : St) (cycToo : Bool) : Option Id :=
-  match (s.objs.filter (fun p => (cycToo || !p.2.cyc) && !referenced s p.1)).head? with
+  match s.objs.find? (fun p => (cycToo || !p.2.cyc) && !referenced s p.1) with
   | some p => some p.1
-  | Option.none => ((s.arrs.filter (fun a => !referenced s a.1)).head?).map (·.1)
+  | Option.none => (s.arrs.find? (fun a => !referenced s a.1)).map (·.1)
 
 def collect (cycToo : Bool) : Nat → St → St
   | 0, s => s
